@@ -241,20 +241,20 @@ func (ex *Exec) binop(in *ssa.BinOp, r Term) Val {
 		case token.ADD:
 			res.T = app("bvadd", x.T, y.T)
 			if ex.top.sweep && isCountType(in.Type()) {
-				ex.addObl("overflow", "", r, app("bvuge", res.T, x.T), in.Pos(), "Count addition wraps: "+in.String(), true)
+				ex.addObl("overflow", "", r, app("bvuge", res.T, x.T), in.Pos(), "Count addition wraps: "+in.String(), false)
 			}
 			if ex.top.fc != nil && ex.top.fc.Options["intoverflow"] != "" && signed {
-				ex.addObl("overflow", "", r, not(app("bvsaddo", x.T, y.T)), in.Pos(), "signed addition overflows", true)
+				ex.addObl("overflow", "", r, not(app("bvsaddo", x.T, y.T)), in.Pos(), "signed addition overflows", false)
 			}
 		case token.SUB:
 			res.T = app("bvsub", x.T, y.T)
 			if ex.top.sweep && isCountType(in.Type()) {
-				ex.addObl("overflow", "", r, app("bvuge", x.T, y.T), in.Pos(), "Count subtraction wraps: "+in.String(), true)
+				ex.addObl("overflow", "", r, app("bvuge", x.T, y.T), in.Pos(), "Count subtraction wraps: "+in.String(), false)
 			}
 		case token.MUL:
 			res.T = app("bvmul", x.T, y.T)
 			if ex.top.sweep && isCountType(in.Type()) {
-				ex.addObl("overflow", "", r, not(app("bvumul_noovfl_neg", x.T, y.T)), in.Pos(), "Count multiplication wraps", true)
+				ex.addObl("overflow", "", r, not(app("bvumul_noovfl_neg", x.T, y.T)), in.Pos(), "Count multiplication wraps", false)
 			}
 		case token.QUO:
 			ex.addObl("div", "", r, not(eq(y.T, bvLit(y.W, 0))), in.Pos(), "division by zero", true)
@@ -447,7 +447,7 @@ func (ex *Exec) convert(x Val, from, to types.Type, in ssa.Instruction, r Term) 
 					lo, hi = fpOfFloat(-1), fpOfFloat(18446744073709551616.0)
 				}
 				if w == 64 {
-					ex.addObl("fconv", "", r, and(not(app("fp.isNaN", x.T)), app("fp.gt", x.T, iteT(fmt.Sprint(s), fpOfFloat(-9223372036854777856.0), lo)), app("fp.lt", x.T, hi)), in.Pos(), "float→int conversion out of range", true)
+					ex.addObl("fconv", "", r, and(not(app("fp.isNaN", x.T)), app("fp.gt", x.T, iteT(fmt.Sprint(s), fpOfFloat(-9223372036854777856.0), lo)), app("fp.lt", x.T, hi)), in.Pos(), "float→int conversion out of range", false)
 				}
 				return bvVal(fmt.Sprintf("((_ %s %d) RTZ %s)", f, w, x.T), w, s, to)
 			}
